@@ -273,6 +273,9 @@ def unbounded_stream(ctx):
             forms[f'B{j + 1}'] = '=' + body
         if rng.random() < 0.5:
             forms['C1'] = f'={rng.choice(aggs)}(A:A)*2' if rng.random() < 0.5 else f'=B1+{rng.choice(aggs)}(A1:A{nrows})'
+        if k % 4 == 1:
+            # a column / row past the used area of the sheet is empty (repair 400e433: it raised AttributeError)
+            forms['B4'] = rng.choice(['=SUM(F:F)+A1', '=COUNT(E:F)', f'=SUM({nrows + 6}:{nrows + 7})+A2', '=MAX(G:G)+SUM(A:A)'])
 
         def book(values):
             wb = openpyxl.Workbook()
